@@ -1156,7 +1156,6 @@ Proof.
       apply (hstep_nolp h m (Some (HWait w hc fl true))); auto.
       * now apply step_inv.
       * apply step_eager; [discriminate | discriminate | exact HE1].
-      * now rewrite V2.
       * cbn [mon_event]. rewrite R3, R2, step_absv_cancel, A1.
         replace (length (acts s)) with (length (absv s)) by (unfold absv; apply map_length).
         now rewrite upd_app_last.
